@@ -257,7 +257,7 @@ func TypeCheck(files map[string][]byte) (fset *token.FileSet, parsed []*ast.File
 			}
 		},
 	}
-	info = &types.Info{Defs: map[*ast.Ident]types.Object{}, Uses: map[*ast.Ident]types.Object{}, Types: map[ast.Expr]types.TypeAndValue{}}
+	info = &types.Info{Defs: map[*ast.Ident]types.Object{}, Uses: map[*ast.Ident]types.Object{}, Types: map[ast.Expr]types.TypeAndValue{}, Selections: map[*ast.SelectorExpr]*types.Selection{}}
 	pkg, _ = conf.Check("gen", fset, parsed, info)
 	return
 }
